@@ -34,3 +34,31 @@ CONTRACTS = [
         pure_results={"needs_quoting": "bool"},
     ),
 ]
+
+
+# --------------------------------------------------------------------------------------------------------------
+# _parse_out_default_and_doc, the branch that takes the "Defaults to X" clause OUT of a description (emit_default_doc false):
+# what is kept is `fst + rest`.  Whatever the line and wherever the announce was found (also at position 0: a description that
+# BEGINS with "Defaults to ..."), `fst` is the text in front of the announce, less the separating blank(s): a prefix of the line,
+# never longer than what precedes the announce -- so the stripped description is never longer than the line it came from, and
+# repeated regeneration cannot make it grow (the defect repaired by the fix: commit in /repo: line[:_start_idx - 1] with
+# _start_idx == 0 is line[:-1], the description then doubled on every round).
+def _strip_contract(tag, offset_kind, offset_req):
+    return Contract(
+        M + ":_parse_out_default_and_doc#default-clause-removed/" + tag,
+        src=M + ":_parse_out_default_and_doc",
+        block=("stop_tokens = ", "rest = "),
+        params={"line": "str", "_start_idx": "int", "start_rest_offset": "int", "rstrip_default": "bool", "default_end_offset": offset_kind},
+        requires=["_start_idx >= 0", "_start_idx <= start_rest_offset", "start_rest_offset <= length(line)"] + offset_req,
+        ensures=[
+            "startswith(line, fst)",
+            "implies(_start_idx >= 1, length(fst) <= _start_idx - 1 and length(fst) >= _start_idx - 2)",
+            "implies(_start_idx == 0, fst == '')",
+            "length(fst) + length(rest) <= length(line)",
+        ],
+        pure_results={"count_iter_items": "int"},
+    )
+
+
+CONTRACTS.append(_strip_contract("plain", "none", []))
+CONTRACTS.append(_strip_contract("paren", "int", ["default_end_offset == -1 or default_end_offset == -2 or default_end_offset == 0"]))
